@@ -26,7 +26,8 @@ inductive PVal where
     A type that does not have the constructor the token asks for has no such `__args__` / no
     `to_internal_value`: `AttributeError`/`TypeError`, modelled as `typeError` (never swallowed: only the
     call `to_internal_value(value)` is inside the `try`).
-  * token `S`, value a string: `to_internal_value` is the `accepts` oracle (`some false` = `ValueError`).
+  * token `S`, value a string: `to_internal_value` is the `accepts` oracle (`some true` = returns the parsed
+    value, `some false` = `ValueError`, `none` = the driver's table has no answer: `oracleMiss`).
     A value that is not a string is modelled as `TypeError` (true for `None`, lists, dicts; `int(True)`,
     `int(3)`, `float(3)` succeed in Python and `BooleanString` raises `AttributeError` on a number: bool and
     number inputs at an `S` position are OUTSIDE the modelled domain).
@@ -74,8 +75,14 @@ def processValue (acc : Accepts) : List String → Json → Ty → Bool → Exce
       | _ => .error .typeError
     else .error .valueError               -- `raise ValueError(f"Unknown token {token}")`
 
-/-- one entry of the decorator's `str_fields`: `'name'` ↦ `["S"]`, `'name#O.L.S'` ↦ `["O","L","S"]` -/
-def splitPathStr (p : String) : List String := if p.isEmpty then ["S"] else p.splitOn "."
+/-- `s.split('.')`, on characters; `cur` = the current piece, reversed -/
+def splitDotsGo : List Char → List Char → List String
+  | [], cur => [String.ofList cur.reverse]
+  | c :: cs, cur => if c = '.' then String.ofList cur.reverse :: splitDotsGo cs [] else splitDotsGo cs (c :: cur)
+
+/-- one entry of the decorator's `str_fields`: `'name'` ↦ `["S"]`, `'name#O.L.S'` ↦ `["O","L","S"]`
+    (`p` = the text after `#`, empty when there is no `#`) -/
+def splitPathStr (p : String) : List String := if p.isEmpty then ["S"] else splitDotsGo p.toList []
 
 /-- `setattr(self, name, v)` on the instance dict -/
 def setAttr (self : List (String × PVal)) (name : String) (v : PVal) : List (String × PVal) :=
